@@ -405,6 +405,14 @@ class Evaluator:
                 return SV("vec", [anchor_poly(shift_poly(c, k0)) for c in base.comps], base.summed, absd=False, items=None)
             # [:, c]  /  [:, np.newaxis]  /  [:, np.newaxis, :]
             if len(elts) == 2 and isinstance(elts[0], ast.Slice):
+                if isinstance(elts[1], ast.Slice) and elts[1].step is None and elts[0].lower is None and elts[0].upper is None and elts[0].step is None:
+                    # v[:, a:b]: a block of coordinate columns
+                    lo_ = self._const(elts[1].lower) if elts[1].lower is not None else None
+                    hi_ = self._const(elts[1].upper) if elts[1].upper is not None else None
+                    if (lo_ is None or isinstance(lo_, int)) and (hi_ is None or isinstance(hi_, int)):
+                        sel = base.comps[slice(lo_, hi_)]
+                        if sel:
+                            return SV("cyc", list(sel), base.summed)
                 c = self._const(elts[1])
                 if isinstance(c, int):
                     return SV("cyc", [base.comps[c]], base.summed)
